@@ -1100,11 +1100,11 @@ func (e *CEnv) call(n *ast.CallExpr) *Val {
 			}
 		}
 		e.errf("captured: %s does not capture %s", fname, vname)
-	case "called", "callres":
+	case "called", "callres", "notcalled":
 		// called("callee"): the (single) call site of that callee in this function was executed on
 		// this path; callres("callee", i): its i-th result. For calls that are not trace events
 		// (e.g. io.Reader.Read): lets a post relate the function's results to the callee's.
-		if e.frame == nil || (fname == "called" && len(n.Args) != 1) || (fname == "callres" && len(n.Args) != 2) {
+		if e.frame == nil || (fname != "callres" && len(n.Args) != 1) || (fname == "callres" && len(n.Args) != 2) {
 			e.errf("%s: bad use", fname)
 		}
 		want := e.strArg(n.Args[0])
@@ -1135,8 +1135,8 @@ func (e *CEnv) call(n *ast.CallExpr) *Val {
 		if site != nil {
 			got = e.st.F(e.frame).vals[site]
 		}
-		if fname == "called" {
-			if got != nil {
+		if fname == "called" || fname == "notcalled" {
+			if (got != nil) == (fname == "called") {
 				return boolVal(tTrue)
 			}
 			return boolVal(tFalse)
